@@ -41,6 +41,7 @@ def run(ctx):
     order(ctx)
     window(ctx)
     moveless(ctx)
+    subpath_scan(ctx)
     pinfo, sinfo, inv = cachecoh.invalidating(ctx)
     for cname, name in (("Path", "reverse"), ("Subpath", "reverse"), ("Subpath", "_reverse_segments")):
         ctx.ob("R16.4", "%s.%s" % (cname, name), (cname, name) in inv, "", 0, "reversal changes every fraction of the path: the cached lengths must be dropped")
@@ -497,3 +498,24 @@ def moveless(ctx):
                (c.func.attr == "validate_connections" or any("end" in ast.unparse(a) for a in c.args))]
     ctx.ob("R16.5", "Subpath.reverse[start point moved, successor not re-linked]", not moved or bool(relinks), "; ".join("line %d: %s" % (st.lineno, ast.unparse(st)[:50]) for st in moved), sr.lineno,
            "reversing a closed subpath whose close has length moves its starting point; a following subpath without its own Move still starts at the old one and is cut off")
+
+
+def subpath_scan(ctx):
+    """Path.reverse re-assembles the reversed subpaths with `p += subpath`; Path.extend then calls _validate_subpath(index) to
+    re-link the Close of the subpath that contains the junction.  The forward scan for that Close must stop at the first Move: a
+    Move begins another subpath, whose Close belongs to it and not to the junction."""
+    fn = ctx.fn("Path._validate_subpath", "R16.2")
+    loops = [x for x in fn.body if isinstance(x, ast.For)]
+    ctx.need(loops, "R16.2", "Path._validate_subpath: forward scan not found")
+    lp = loops[0]
+    stops = []
+    close_at = None
+    for k, st in enumerate(lp.body):
+        if isinstance(st, ast.If) and isinstance(st.test, ast.Call) and call_name(st.test) == "isinstance" and len(st.test.args) == 2:
+            cls_ = ast.unparse(st.test.args[1])
+            if "Move" in cls_ and st.body and isinstance(st.body[-1], (ast.Return, ast.Break)):
+                stops.append(k)
+            if "Close" in cls_ and close_at is None:
+                close_at = k
+    ctx.ob("R16.2", "Path._validate_subpath[the scan stops at the next Move]", bool(stops) and close_at is not None and min(stops) < close_at, "Move exits at %s, Close handled at %s" % (stops, close_at), lp.lineno,
+           "without the stop the scan runs into the next subpath and re-links ITS Close to the Move found from the junction: M0,0 L1,0 L1,1 Z M5,5 L6,6 reversed ends with a Close running (0,0)->(6,6)")
